@@ -23,6 +23,7 @@ import (
 	"verif/memnet"
 	"verif/peer"
 	"verif/refcodec"
+	"verif/udpsrv"
 )
 
 type Request struct {
@@ -500,8 +501,8 @@ func TestCheck(t *testing.T) {
 		return f
 	})
 	r.Main(evid.Meta{
-		Rule:        "ping: Conn.Ping(ctx) / Conn.AsyncPing + its cancel function against a peer that answers the k-th copy with RST or ACK after a delay, or never; same clauses for the copies of the ping (count, spacing, byte identity, none after the pong, the cancellation or the return), Ping succeeds iff a pong was delivered. retx: a client datagram connection in a synctest bubble issuing 1-3 confirmable GETs with generated (ACK_TIMEOUT, MAX_RETRANSMIT 0-5, NSTART 1-3), per-transmission loss, a transmission whose socket write fails (single-request scenarios), peer reaction (piggy-backed, empty ACK then separate CON/NON response, RST, nothing), per-reply loss, reaction delays around ACK_TIMEOUT, caller deadline/cancellation, and a housekeeping tick schedule (around k x ACK_TIMEOUT +-1 ms, unrelated periods, random, dense); oracle over the wire log with exact virtual timestamps: copies <= 1+MAX_RETRANSMIT, k-th copy not before t0 + k x ACK_TIMEOUT, byte-identical, none after ACK/RST delivery, cancellation or return; success only with the peer's own response; a response delivered before exhaustion and deadline must make the call succeed; dense ticks and silence produce a retransmission. Non-trivial = at least one lost transmission or lost reply; distinct by scenario",
+		Rule:        udpsrv.Rule + ". Others: ping: Conn.Ping(ctx) / Conn.AsyncPing + its cancel function against a peer that answers the k-th copy with RST or ACK after a delay, or never; same clauses for the copies of the ping (count, spacing, byte identity, none after the pong, the cancellation or the return), Ping succeeds iff a pong was delivered. retx: a client datagram connection in a synctest bubble issuing 1-3 confirmable GETs with generated (ACK_TIMEOUT, MAX_RETRANSMIT 0-5, NSTART 1-3), per-transmission loss, a transmission whose socket write fails (single-request scenarios), peer reaction (piggy-backed, empty ACK then separate CON/NON response, RST, nothing), per-reply loss, reaction delays around ACK_TIMEOUT, caller deadline/cancellation, and a housekeeping tick schedule (around k x ACK_TIMEOUT +-1 ms, unrelated periods, random, dense); oracle over the wire log with exact virtual timestamps: copies <= 1+MAX_RETRANSMIT, k-th copy not before t0 + k x ACK_TIMEOUT, byte-identical, none after ACK/RST delivery, cancellation or return; success only with the peer's own response; a response delivered before exhaustion and deadline must make the call succeed; dense ticks and silence produce a retransmission. Non-trivial = at least one lost transmission or lost reply; distinct by scenario",
 		Assumptions: []string{"'before exhaustion' is read conservatively: delivered strictly before the first tick that follows transmission number 1+MAX_RETRANSMIT (for MAX_RETRANSMIT = 0: before the first tick) and at least 1 ms before the deadline/cancellation", "nothing is asserted about NSTART"},
 		Floor:       300,
-	}, eng, pingEngine(t, r))
+	}, eng, pingEngine(t, r), udpsrv.Engine(r, []string{"retx", "retx", "reconn"}, 8, 200))
 }
